@@ -185,6 +185,21 @@ def register_t1b(J):
                            "comments, line number 0, no quotes) and writes nothing but that slot - any array size, any index."))
 
 
+def register_plainget(J):
+    for tag, fn, what in (("GETSTRING", "getStringValueNum", "the value: NULL when absent, else a private copy of exactly that text"),
+                          ("GETCOMMENTS", "getCommentsNum", "each comment on its own: NULL when absent, else a private copy of THAT "
+                                                            "comment (never the other one)"),
+                          ("GETLINENR", "getLineNrNum", "the stored line number"),
+                          ("GETPATH", "getPath", "the object's path: NULL when absent, else a private copy")):
+        J.append(Job("plainget." + fn, ["C10"], "harness/plainget.c", sources=["lib/keyfile.c"],
+                     stubs=["stubs/strdup_log.c", "stubs/numtext.c"], contracts=["contracts/plainget.h", "stubs/asprintf_shim.h"],
+                     enforce=fn, unwind=8, tier="T1", defines=["-DFN_" + tag + "=1"], timeout=300, mem_gb=4,
+                     expect=[fn + r"\.postcondition", r"main\.assertion"],
+                     model="abstract strdup with a ghost log (no string is read: texts of any length)",
+                     statement="C10 (and the read half of C17): %s writes its out-parameter(s) and nothing else (dfcc frame), "
+                               "always succeeds, and hands out %s - any array size, any index." % (fn, what)))
+
+
 def register_setbool(J):
     J.append(Job("setbool", ["C08", "C11"], "harness/setbool.c", sources=["lib/keyfile.c", "lib/helpers.c"],
                  stubs=["stubs/numtext.c"], contracts=["contracts/keyfile_getters.h", "stubs/asprintf_shim.h"],
